@@ -547,7 +547,7 @@ Definition reread_first_name (ms : list model) (m : model) (tbl : list (str * na
   | KNames =>
     match rev (names_line ms m idx i) with
     | lastnet :: _ :: _ =>
-      if contains k_unconn lastnet then let '(nm, tbl') := default_name tbl (i_ref i) in (Some nm, tbl')
+      if str_eqb lastnet k_unconn then let '(nm, tbl') := default_name tbl (i_ref i) in (Some nm, tbl')
       else (Some lastnet, tbl)
     | _ => (None, tbl)
     end
